@@ -33,72 +33,91 @@ theorem sprintKVs_norm : ∀ kvs : List (GoVal × GoVal), sprintKVs (normKVs fal
   | (k, v) :: r => by simp only [normKVs, sprintKVs, sprint_norm v, sprintKVs_norm r]
 end
 
+mutual
+/-- printing in Go syntax after `values.ResolveDrops` does not see the representation, drops nested in
+    containers included (`d = true`): the repair `fixes/nested-drops-resolved` -/
+theorem sprintR_norm (d : Bool) : ∀ v : GoVal, sprint (v.norm d).resolveDrops = sprint v.resolveDrops
+  | .drop v => by
+    rw [norm]; split
+    · rfl
+    · rw [resolveDrops_drop]; exact sprintR_norm d v
+  | .slice _ xs => by simp only [norm, resolveDrops_slice, sprint, sprintAllR_norm d xs]
+  | .array _ xs => by simp only [norm, resolveDrops_slice, resolveDrops_array, sprint, sprintAllR_norm d xs]
+  | .map kt vt kvs => by
+    cases h : isRec (.map kt vt kvs) with
+    | true => rw [norm_of_isRec h]
+    | false => rw [norm_map_nonrec h]; simp only [resolveDrops_map, sprint, sprintKVsR_norm d kvs]
+  | .nil | .bool _ | .int _ _ | .flt _ _ | .str _ | .bytes _
+  | .mapSlice _ | .keyedMap _ | .range _ _ | .ptr _ | .nilPtr
+  | .struct _ | .time _ => by simp [norm]
+theorem sprintAllR_norm (d : Bool) : ∀ xs : List GoVal,
+    sprintAll (resolveDropsList (normList d xs)) = sprintAll (resolveDropsList xs)
+  | [] => rfl
+  | x :: xs => by simp only [normList, resolveDropsList, sprintAll, sprintR_norm d x, sprintAllR_norm d xs]
+theorem sprintKVsR_norm (d : Bool) : ∀ kvs : List (GoVal × GoVal),
+    sprintKVs (resolveDropsVals (normKVs d kvs)) = sprintKVs (resolveDropsVals kvs)
+  | [] => rfl
+  | (k, v) :: r => by simp only [normKVs, resolveDropsVals, sprintKVs, sprintR_norm d v, sprintKVsR_norm d r]
+end
+
 theorem writeObjectL_map_norm (kt vt : Ty) (kvs : List (GoVal × GoVal)) :
     writeObjectL ((GoVal.map kt vt kvs).norm false) = writeObjectL (.map kt vt kvs) := by
-  have h := sprint_norm (.map kt vt kvs)
+  have h := sprintR_norm false (.map kt vt kvs)
   cases hr : isRec (.map kt vt kvs) with
   | true => rw [norm_of_isRec hr]
   | false =>
     rw [norm_map_nonrec hr] at h ⊢
-    simpa [writeObjectL] using h
+    simpa [writeObjectL, sprintR] using h
+
+theorem writeObjectL_map_normD (d : Bool) (kt vt : Ty) (kvs : List (GoVal × GoVal)) :
+    writeObjectL ((GoVal.map kt vt kvs).norm d) = writeObjectL (.map kt vt kvs) := by
+  have h := sprintR_norm d (.map kt vt kvs)
+  cases hr : isRec (.map kt vt kvs) with
+  | true => rw [norm_of_isRec hr]
+  | false =>
+    rw [norm_map_nonrec hr] at h ⊢
+    simpa [writeObjectL, sprintR] using h
+
+/-- the element step of `writeChunksList` is `writeChunksL` (which follows a chain of drops itself) -/
+theorem writeChunksList_consL (x : GoVal) (xs : List GoVal) :
+    writeChunksList (x :: xs) = (writeChunksL x).bind fun a => (writeChunksList xs).bind fun b => .ok (a ++ b) := by
+  cases x with
+  | ptr w => cases w <;> simp only [writeChunksList, writeChunksL_ptr_drop]
+  | _ => simp only [writeChunksList, writeChunksL_drop]
 
 mutual
-theorem writeChunksL_norm : ∀ v : GoVal, writeChunksL (v.norm false) = writeChunksL v
-  | .drop v => by rw [norm_drop_false]
-  | .slice _ xs => by simp only [norm, writeChunksL, writeChunksList_norm xs]
-  | .array _ xs => by simp only [norm, writeChunksL, writeChunksList_norm xs]
+/-- the writes of an object node do not see the representation — for `d = true` too: a drop nested in an
+    array or in a printed map is written as its value (`fixes/nested-drops-resolved`) -/
+theorem writeChunksL_norm (d : Bool) : ∀ v : GoVal, writeChunksL (v.norm d) = writeChunksL v
+  | .drop v => by
+    rw [norm]; split
+    · rfl
+    · rw [writeChunksL_drop]; exact writeChunksL_norm d v
+  | .slice _ xs => by simp only [norm, writeChunksL, writeChunksList_norm d xs]
+  | .array _ xs => by simp only [norm, writeChunksL, writeChunksList_norm d xs]
   | .map kt vt kvs => by
     cases hr : isRec (.map kt vt kvs) with
     | true => rw [norm_of_isRec hr]
     | false =>
-      have h := writeObjectL_map_norm kt vt kvs
+      have h := writeObjectL_map_normD d kt vt kvs
       rw [norm_map_nonrec hr] at h ⊢
       simp only [writeChunksL, h]
   | .nil | .bool _ | .int _ _ | .flt _ _ | .str _ | .bytes _
   | .mapSlice _ | .keyedMap _ | .range _ _ | .ptr _ | .nilPtr
   | .struct _ | .time _ => by simp [norm]
-theorem writeChunksList_norm : ∀ xs : List GoVal, writeChunksList (normList false xs) = writeChunksList xs
+theorem writeChunksList_norm (d : Bool) : ∀ xs : List GoVal, writeChunksList (normList d xs) = writeChunksList xs
   | [] => rfl
   | x :: xs => by
-    have ih := writeChunksList_norm xs
-    have hx := writeChunksL_norm x
-    cases x with
-    | drop v => simp only [normList, norm_drop_false, writeChunksList, ih]
-    | ptr v => cases v <;> simp only [normList, norm, writeChunksList, ih]
-    | slice t ys =>
-      simp only [norm] at hx
-      simp only [normList, norm, writeChunksList, ih, hx]
-    | array t ys =>
-      simp only [norm] at hx
-      simp only [normList, norm, writeChunksList, ih, hx]
-    | map kt vt kvs =>
-      cases hr : isRec (.map kt vt kvs) with
-      | true => simp only [normList, norm_of_isRec hr, writeChunksList, ih]
-      | false =>
-        rw [norm_map_nonrec hr] at hx
-        simp only [normList, norm_map_nonrec hr, writeChunksList, ih, hx]
-    | _ => simp only [normList, norm, writeChunksList, ih]
+    rw [normList, writeChunksList_consL, writeChunksList_consL, writeChunksL_norm d x, writeChunksList_norm d xs]
 end
 
-theorem stdChunks_norm (v : GoVal) : stdChunks (v.norm false) = stdChunks v := by
-  unfold stdChunks
-  cases v with
-  | drop w => rw [norm_drop_false]
-  | ptr w => simp [norm]
-  | slice t xs => simpa [toLiquid, norm] using writeChunksL_norm (.slice t xs)
-  | array t xs => simpa [toLiquid, norm] using writeChunksL_norm (.array t xs)
-  | map kt vt kvs =>
-    cases hr : isRec (.map kt vt kvs) with
-    | true => rw [norm_of_isRec hr]
-    | false =>
-      have h := writeChunksL_norm (.map kt vt kvs)
-      rw [norm_map_nonrec hr] at h ⊢
-      simpa [toLiquid] using h
-  | _ => simp [norm]
+theorem stdChunks_norm (d : Bool) (v : GoVal) : stdChunks (v.norm d) = stdChunks v := by
+  rw [stdChunks_eq_writeChunksL, stdChunks_eq_writeChunksL]; exact writeChunksL_norm d v
 
-/-- the standard output layer prints representation-equivalent values alike (`d = false`) -/
-theorem stdOut_respects (t : Bool) : OutRespect t false stdOut :=
+/-- the standard output layer prints representation-equivalent values alike — with drops nested in
+    containers too (`d = true`), since `fixes/nested-drops-resolved` -/
+theorem stdOut_respects (t d : Bool) : OutRespect t d stdOut :=
   { chunks := fun v v' h => by
       apply RRel.of_eq (fun _ => rfl)
       show stdChunks v = stdChunks v'
-      rw [← stdChunks_norm v, ← stdChunks_norm v', h.2.2] }
+      rw [← stdChunks_norm d v, ← stdChunks_norm d v', h.2.2] }
